@@ -69,6 +69,9 @@ def expected(name, d):
     if my not in MY:
         raise ValueError('reject')
     ike = algs('encr', ENCR, ['aes256'], d) + algs('integ', INTEG, ['sha256'], d) + algs('prf', PRF, ['sha256'], d) + algs('dh', DH, ['14'], d)
+    if not ike:
+        # all four lists explicitly empty: an IKE proposal without a single transform cannot be encoded (RFC 7296 3.3.1) — it is rejected
+        raise ValueError('reject')
 
     def auth(a):
         idt = a.get('id', 'https://github.com/alejandro-perez/pyikev2')
@@ -277,6 +280,14 @@ def run(ctx):
             used.add((d['my_addr'], d['peer_addr']))
             conns['conn%d' % i] = d
         malformed = k % 3 == 2
+        if k % 50 == 7 and conns:
+            # corner of the grammar that random choice hardly ever reaches: every IKE algorithm list explicitly empty (a proposal
+            # without transforms: rejected), or all but one
+            name0 = sorted(conns)[0]
+            for key in ('encr', 'integ', 'prf', 'dh'):
+                conns[name0][key] = []
+            if k % 100 == 7:
+                conns[name0][rng.choice(['encr', 'integ', 'prf', 'dh'])] = rng.choice([['aes128'], ['sha1'], ['14']])
         full = copy.deepcopy(conns)
         if malformed:
             name = rng.choice(list(conns))
